@@ -776,7 +776,65 @@ func (f *crashFS) TempFile(dir, prefix string) (billy.File, error) {
 func (f *crashFS) Rename(a, b string) error { f.tick("Rename"); return f.Filesystem.Rename(a, b) }
 func (f *crashFS) Remove(a string) error    { f.tick("Remove"); return f.Filesystem.Remove(a) }
 
+// c06ClockCreation: the very first use of a clock (first bug ever, first pull into a fresh clone): the
+// process dies at every file operation of the creation, with every partial write.  The next process
+// must be able to use the clock: load it, or find that it does not exist and create it.
+func c06ClockCreation(c *runCtx, prop string) {
+	count := func(crashAt, partial int) (ops []string, died bool, dir string) {
+		dir = scratch("c06new")
+		fs := &crashFS{Filesystem: osfs.New(dir), crashAt: crashAt, partial: partial}
+		func() {
+			defer func() {
+				if p := recover(); p != nil {
+					if _, ok := p.(fsCrash); !ok {
+						panic(p)
+					}
+					died = true
+				}
+			}()
+			clk, err := lamport.NewPersistedClock(fs, "clocks/bugs-edit")
+			if err != nil {
+				panic(err)
+			}
+			clk.Increment()
+		}()
+		return fs.ops, died, dir
+	}
+	ops, _, d0 := count(-1, 0)
+	os.RemoveAll(d0)
+	c.count(fmt.Sprintf("clock-creation-ops=%s", strings.Join(ops, ",")))
+	for k := 0; k < len(ops); k++ {
+		partials := []int{0}
+		if strings.HasPrefix(ops[k], "Write(") {
+			var n int
+			fmt.Sscanf(ops[k], "Write(%d)", &n)
+			partials = nil
+			for j := 0; j < n; j++ {
+				partials = append(partials, j)
+			}
+		}
+		for _, j := range partials {
+			_, _, dir := count(k, j)
+			c.count("clock-creation-crash-points")
+			where := fmt.Sprintf("first creation of a clock, process dies at file operation %d (%s) of %v with %d bytes written", k, ops[k], ops, j)
+			content, _ := os.ReadFile(filepath.Join(dir, "clocks", "bugs-edit"))
+			fs := osfs.New(dir)
+			clk, err := lamport.LoadPersistedClock(fs, "clocks/bugs-edit")
+			if err == lamport.ErrClockNotExist {
+				clk, err = lamport.NewPersistedClock(fs, "clocks/bugs-edit")
+			}
+			if err != nil {
+				c.violation(-1, prop+"/cannot-reopen", fmt.Sprintf("%s: the clock file holds %q and the clock can neither be loaded nor created: %v", where, content, err), map[string]any{"op": k, "bytes": j})
+			} else if _, err := clk.Increment(); err != nil {
+				c.violation(-1, prop+"/clock-unusable", fmt.Sprintf("%s: the clock file holds %q and the next increment fails: %v", where, content, err), nil)
+			}
+			os.RemoveAll(dir)
+		}
+	}
+}
+
 func c06Clocks(c *runCtx, prop string) {
+	c06ClockCreation(c, prop)
 	r := c.rng.fork()
 	// a repository with a bug whose clocks stand at several digits
 	repo, dir := newGoGit("c06clock", false)
